@@ -39,10 +39,11 @@ SPDX_SNIPPET_INDICATOR = b"SPDX-SnippetBegin"
 
 _LOGGER = logging.getLogger(__name__)
 
-# Any run of terminators, in any order, possibly followed by trailing blanks.
+# Any run of terminators, in any order, possibly separated by blanks (a comment
+# inside another one ends in '*/ -->') and followed by trailing blanks.
 # The alternatives are sorted so that the pattern does not depend on the
 # iteration order of the set.
-_END_PATTERN = r"(?:{})*[ \t]*$".format(
+_END_PATTERN = r"(?:[ \t]*(?:{}))*[ \t]*$".format(
     "|".join(
         sorted({
             item
